@@ -589,3 +589,35 @@ Proof.
   intros Hg Hf. destruct (site_gen_is_ref name g Hg) as [f' [Hf' Heq]]. rewrite Hf in Hf'. injection Hf' as <-.
   rewrite Heq. apply generated_is_spec.
 Qed.
+
+(* ------------------------------------------------------------------ seventh round *)
+(* _no_escape, regenerated, is the identity on a str *)
+Theorem gen_no_escape_is_model v : gen_no_escape v = no_escape v.
+Proof. reflexivity. Qed.
+
+(* message sites: the formats regenerated from config/views.py, viewderivers.py, csrf.py, exceptions.py are the
+   reference formats *)
+Theorem msite_generated_is_model name args : msite_gen name args = msite_ref name args.
+Proof. reflexivity. Qed.
+
+Theorem site_m_model_is_spec name args g en ofs :
+  msite_gen name args = Some g ->
+  msite_ref name args = Some g /\ model (input_of_m g en ofs) = spec (input_of_m g en ofs).
+Proof. intros H. split; [rewrite <- msite_generated_is_model; exact H|apply generated_is_spec]. Qed.
+
+(* the secured-view message: fixed text around the function name, which is not rescanned *)
+Example ex_unauthorized fn : exists pre suf,
+  msite_ref [102; 111; 114; 98; 105; 100; 100; 101; 110] [fn] = Some (n_HTTPForbidden, pre ++ fn ++ suf, None).
+Proof.
+  exists [85; 110; 97; 117; 116; 104; 111; 114; 105; 122; 101; 100; 58; 32],
+         [32; 102; 97; 105; 108; 101; 100; 32; 112; 101; 114; 109; 105; 115; 115; 105; 111; 110; 32; 99; 104; 101; 99; 107].
+  reflexivity.
+Qed.
+
+(* an empty comment is no comment: the same page (no html_comment wrapper, empty ${comment}), in every
+   form, for class and custom templates -- the case frame_comment (non-empty comments) leaves out *)
+Theorem comment_empty_is_none b c i :
+  page_text spec_policy b c (with_comment i (Some [])) = page_text spec_policy b c (with_comment i None).
+Proof. reflexivity. Qed.
+Theorem spec_comment_empty_is_none i : spec (with_comment i (Some [])) = spec (with_comment i None).
+Proof. reflexivity. Qed.
